@@ -328,6 +328,59 @@ Proof.
   rewrite Hf. apply load_enc; assumption.
 Qed.
 
+(* ---------- restarts in between ---------- *)
+Lemma chain_last k es : chain k es -> es <> [] -> last (map e_index es) 0 + 1 = k + nlen es.
+Proof.
+  revert k; induction es as [|e r IH]; intros k Hc Hne; [contradiction|]. destruct Hc as [He Hr]. destruct r as [|e' r'].
+  - cbn [map last]. unfold nlen; cbn. lia.
+  - change (last (map e_index (e :: e' :: r')) 0) with (last (map e_index (e' :: r')) 0). rewrite (IH (k + 1) Hr) by discriminate. rewrite (nlen_cons e). lia.
+Qed.
+
+Lemma jreopen_inv s es : jinv s es -> Forall good es -> jinv (jreopen crc cmd_ok s) es.
+Proof.
+  intros (Hf & Hc & Hn & Hl) Hg. unfold jreopen. rewrite Hf, (load_enc es Hg Hc).
+  unfold jinv; cbn [j_file j_count j_cur]. split; [reflexivity|]. split; [exact Hc|]. split; [reflexivity|].
+  intros Hne. pose proof (chain_last 0 es Hc Hne). lia.
+Qed.
+
+Definition applied_of (ops : list jop) : list (N * N * N * list byte * N * bool) :=
+  flat_map (fun o => match o with JCmd x => [x] | JReopen => [] end) ops.
+
+Lemma fold_applied_prefix_good (P : entry -> Prop) : forall cmds es,
+  Forall P (fold_left (fun (es : list entry) (x : N * N * N * list byte * N * bool) =>
+                         let '(ts, user, code, payload, version, ok) := x in
+                         if ok then es ++ [mk_entry (nlen es) ts user code payload version] else es) cmds es) -> Forall P es.
+Proof.
+  induction cmds as [|x r IH]; intros es H; [exact H|]. cbn [fold_left] in H. destruct x as [[[[[ts user] code] payload] version] ok].
+  apply IH in H. destruct ok; [apply Forall_app in H; tauto | exact H].
+Qed.
+
+(* any sequence of applies, failed appends and restarts leaves a loadable journal holding exactly the successfully applied
+   entries, numbered 0,1,2,... - a restart in between changes nothing *)
+Lemma jstep_run : forall ops s es, jinv s es ->
+  Forall good (fold_left (fun (es : list entry) (x : N * N * N * list byte * N * bool) =>
+                            let '(ts, user, code, payload, version, ok) := x in
+                            if ok then es ++ [mk_entry (nlen es) ts user code payload version] else es) (applied_of ops) es) ->
+  jinv (fold_left (jstep crc cmd_ok) ops s)
+       (fold_left (fun (es : list entry) (x : N * N * N * list byte * N * bool) =>
+                     let '(ts, user, code, payload, version, ok) := x in
+                     if ok then es ++ [mk_entry (nlen es) ts user code payload version] else es) (applied_of ops) es).
+Proof.
+  induction ops as [|o r IH]; intros s es H Hg; [exact H|]. cbn [fold_left applied_of flat_map]. destruct o as [x|].
+  - cbn [app jstep]. cbn [applied_of flat_map app fold_left] in Hg.
+    pose proof (japply_inv s es x H) as H1. destruct x as [[[[[ts user] code] payload] version] ok]. apply IH; [exact H1 | exact Hg].
+  - cbn [app jstep]. cbn [applied_of flat_map app] in Hg. apply IH; [|exact Hg]. apply jreopen_inv; [exact H|].
+    apply (fold_applied_prefix_good good (applied_of r) es Hg).
+Qed.
+
+Lemma apply_reopen_always_loadable ops :
+  Forall good (applied_entries (applied_of ops)) ->
+  load crc cmd_ok (j_file (fold_left (jstep crc cmd_ok) ops j_init)) = inl (applied_entries (applied_of ops)).
+Proof.
+  intros Hg. pose proof (jstep_run ops j_init [] jinv_init Hg) as (Hf & Hc & _). fold (applied_entries (applied_of ops)) in *.
+  rewrite Hf. apply load_enc; assumption.
+Qed.
+
 End WithChecksum.
 
 (* non-vacuity with the concrete CRC-32: a two-entry journal, one failed append in between *)
